@@ -23,10 +23,10 @@ import (
 // input space; the evaluations are counted by x.Eval.
 
 type c18cfg struct {
-	fn          string
-	chunk, of   int
-	maxLen      int
-	thorough    bool
+	fn        string
+	chunk, of int
+	maxLen    int
+	thorough  bool
 }
 
 func c18Configs(tier string) []vmc.Cfg {
